@@ -57,6 +57,12 @@ type dirState struct {
 	gotHash [][32]byte
 	short   string
 	last    atomic.Int64 // ns since start of the last byte observed
+
+	// timed cases
+	sent     []atomic.Int64 // bytes connection i's writer has handed to Write (and Write accepted) so far
+	wdone    []atomic.Bool  // connection i's writer has stopped
+	mismatch string         // first batch that was not the next piece of the payload
+	timeouts atomic.Int64   // calls on the rate-limited side that ran into their own deadline (retried)
 }
 
 func (d *dirState) errf(format string, a ...any) {
@@ -87,6 +93,10 @@ func planDir(ctx *core.Ctx, name string, limit, other int64, c xferCase, explici
 	switch {
 	case explicit > 0:
 		d.total = explicit
+	case limit > 0 && c.timed():
+		// on offer: everything the bound allows by the time the transfer is cut, and 16 MiB more
+		kk, ww := kwOf(c)
+		d.total = modelBurst(ctx, limit) + int64(kk)*int64(ww) + limit*int64(c.Millis)/1000 + 16*mib
 	case limit > 0:
 		d.total = modelBurst(ctx, limit) + limit*int64(c.Millis)/1000
 	case other > 0:
@@ -102,6 +112,8 @@ func planDir(ctx *core.Ctx, name string, limit, other int64, c xferCase, explici
 	d.want = make([][32]byte, k)
 	d.gotN = make([]int64, k)
 	d.gotHash = make([][32]byte, k)
+	d.sent = make([]atomic.Int64, k)
+	d.wdone = make([]atomic.Bool, k)
 	for i := 0; i < k; i++ {
 		d.per[i] = d.total / int64(k)
 		if i == 0 {
@@ -284,6 +296,11 @@ func runListenerMode(run *xferRun) {
 			f()
 		}()
 	}
+	if c.timed() {
+		runListenerTimed(run, cc, sc, goSafe)
+		wg.Wait()
+		return
+	}
 	single := c.Conns == 1
 	var writers sync.WaitGroup
 	goWriter := func(f func()) {
@@ -362,6 +379,19 @@ func startOrigin(run *xferRun) (*origin, error) {
 					return
 				}
 				var w sync.WaitGroup
+				if run.c.timed() {
+					// (the proxy cuts the tunnel at its timeout: errors end the loops silently)
+					if run.down != nil {
+						w.Add(1)
+						go func() { defer w.Done(); timedSource(run.down, i, conn, run.base) }()
+					}
+					if run.up != nil {
+						timedSink(run.up, i, conn, run.start, run.base)
+					}
+					w.Wait()
+					io.Copy(io.Discard, conn)
+					return
+				}
 				if run.down != nil {
 					w.Add(1)
 					go func() {
@@ -387,12 +417,21 @@ func startOrigin(run *xferRun) (*origin, error) {
 		}
 		w.Header().Set("Content-Type", "application/octet-stream")
 		w.Header().Set("Content-Length", strconv.FormatInt(run.down.per[i], 10))
+		if run.c.timed() {
+			timedSource(run.down, i, w, run.base)
+			return
+		}
 		writerLoop(run.down, w, run.down.payload[i], 64*kib, run.base, false, false)
 	})
 	mux.HandleFunc("/up/", func(w http.ResponseWriter, r *http.Request) {
 		i, err := strconv.Atoi(strings.TrimPrefix(r.URL.Path, "/up/"))
 		if err != nil || i < 0 || i >= run.c.Conns || run.up == nil {
 			http.Error(w, "bad", 400)
+			return
+		}
+		if run.c.timed() {
+			timedSink(run.up, i, r.Body, run.start, run.base)
+			io.WriteString(w, "ok")
 			return
 		}
 		readerLoop(run.up, i, r.Body, run.up.per[i], 64*kib, run.start, run.base, false)
@@ -416,6 +455,8 @@ func runProxyMode(run *xferRun) {
 	cfg.ReadLimit = forwarder.SizeSuffix(c.ReadLimit)
 	cfg.WriteLimit = forwarder.SizeSuffix(c.WriteLimit)
 	cfg.ProxyLocalhost = forwarder.AllowProxyLocalhost
+	cfg.WriteTimeout = time.Duration(c.WriteTimeoutMs) * time.Millisecond
+	cfg.ReadTimeout = time.Duration(c.ReadTimeoutMs) * time.Millisecond
 	p, err := forwarder.NewHTTPProxy(cfg, nil, nil, nil, fwdlog.NopLogger, nil)
 	if err != nil {
 		run.setFatal("NewHTTPProxy: " + err.Error())
@@ -490,6 +531,19 @@ func runProxyMode(run *xferRun) {
 					return
 				}
 				var w sync.WaitGroup
+				if c.timed() {
+					if run.up != nil {
+						w.Add(1)
+						go func() { defer w.Done(); timedSource(run.up, i, conn, run.base) }()
+					}
+					if run.down != nil {
+						timedSink(run.down, i, br, run.start, run.base)
+					}
+					w.Wait()
+					// the proxy ends the tunnel at its timeout
+					io.Copy(io.Discard, br)
+					return
+				}
 				if run.up != nil {
 					w.Add(1)
 					go func() {
@@ -529,12 +583,18 @@ func runProxyMode(run *xferRun) {
 				goSafe(func() {
 					resp, err := newClient().Get(fmt.Sprintf("http://%s/down/%d", o.hl.Addr().String(), i))
 					if err != nil {
-						run.down.errf("GET through the proxy: %v", err)
+						if !c.timed() { // (timed: a download the proxy cut before its head arrived carries no data)
+							run.down.errf("GET through the proxy: %v", err)
+						}
 						return
 					}
 					defer resp.Body.Close()
 					if resp.StatusCode != 200 {
 						run.setFatal("GET through the proxy: " + resp.Status)
+						return
+					}
+					if c.timed() {
+						timedSink(run.down, i, resp.Body, run.start, run.base)
 						return
 					}
 					readerLoop(run.down, i, resp.Body, run.down.per[i], 64*kib, run.start, run.base, false)
@@ -546,12 +606,14 @@ func runProxyMode(run *xferRun) {
 					req.ContentLength = run.up.per[i]
 					resp, err := newClient().Do(req)
 					if err != nil {
-						run.up.errf("POST through the proxy: %v", err)
+						if !c.timed() { // (timed: the proxy gives the upload up at its read timeout)
+							run.up.errf("POST through the proxy: %v", err)
+						}
 						return
 					}
 					io.Copy(io.Discard, resp.Body)
 					resp.Body.Close()
-					if resp.StatusCode != 200 {
+					if resp.StatusCode != 200 && !c.timed() {
 						run.setFatal("POST through the proxy: " + resp.Status)
 					}
 				})
@@ -589,12 +651,16 @@ func evalDir(ctx *core.Ctx, run *xferRun, d *dirState) {
 		ctx.Count(label + "unthrottled")
 	}
 	// data path
-	if d.short != "" {
+	if c.timed() {
+		if !evalTimedData(ctx, run, d) {
+			return
+		}
+	} else if d.short != "" {
 		ctx.SpecFail("Conn.Write returns the underlying call's results unchanged", "", c, d.short, "short count without an error on a TCP connection")
 	}
 	okData := len(d.errs) == 0
 	for i := range d.per {
-		if d.gotN[i] != d.per[i] || d.gotHash[i] != d.want[i] {
+		if !c.timed() && (d.gotN[i] != d.per[i] || d.gotHash[i] != d.want[i]) {
 			okData = false
 		}
 	}
@@ -613,6 +679,21 @@ func evalDir(ctx *core.Ctx, run *xferRun, d *dirState) {
 	d.mu.Unlock()
 	sort.Slice(evs, func(i, j int) bool { return evs[i].t < evs[j].t })
 	dur := time.Duration(d.last.Load())
+	moved := d.total // bytes observed (a timed case is cut before its payload is exhausted)
+	if c.timed() {
+		moved = 0
+		for _, e := range evs {
+			moved += int64(e.n)
+		}
+		ctx.Count(fmt.Sprintf("%sdeadline-hits=%s", label, bucket(int(d.timeouts.Load()))))
+		if moved < minProgress {
+			// nothing was exercised: not a verdict on the bound, but not what the model says either
+			// (the burst passes without waiting, whatever deadline is armed)
+			ctx.Disagree("a transfer with deadlines armed makes progress: the model lets the burst pass at once ("+d.name+")", c,
+				fmt.Sprintf("%d bytes arrived in %v", moved, dur), fmt.Sprintf("at least %d bytes", minProgress))
+			return
+		}
+	}
 	if !throttled {
 		if dur >= fastLimit {
 			ctx.SpecFail("a limit constrains only its own direction; limit 0 ⇒ no throttling ("+d.name+")", "", c,
@@ -630,13 +711,17 @@ func evalDir(ctx *core.Ctx, run *xferRun, d *dirState) {
 	jitterNs := func(t int64) int64 { return 20_000_000 + t*3/100 }
 	eps := int64(64 * kib)
 	var cum int64
+	margin := int64(1) << 62 // smallest distance to the bound seen (evidence only)
 	for _, e := range evs {
 		cum += int64(e.n)
 		allowed := d.burst + k*w + int64(float64(d.limit)*float64(e.t+jitterNs(e.t))/1e9) + eps
+		if allowed-cum < margin {
+			margin = allowed - cum
+		}
 		if cum > allowed {
 			ctx.SpecFail("bytes moved by time t ≤ burst + R·t + k·w, summed over the listener's connections ("+d.name+")", class, c,
 				fmt.Sprintf("%d bytes observed %v after the start; allowed %d (R=%d B/s, B=%d, k=%d, w=%d); whole transfer of %d bytes took %v",
-					cum, time.Duration(e.t), allowed, d.limit, d.burst, k, w, d.total, dur),
+					cum, time.Duration(e.t), allowed, d.limit, d.burst, k, w, moved, dur)+timedNote(c),
 				"throughput bound exceeded")
 			return
 		}
@@ -661,15 +746,18 @@ func evalDir(ctx *core.Ctx, run *xferRun, d *dirState) {
 			break
 		}
 	}
-	minDur := time.Duration(float64(d.total-d.burst-k*w) / float64(d.limit) * 1e9)
-	noteMeasurement(ctx, fmt.Sprintf("%s %s read-limit=%d write-limit=%d conns=%d call≤%d: %d bytes in %v (bound: ≥ %v)",
-		c.Mode, d.name, c.ReadLimit, c.WriteLimit, c.Conns, w, d.total, dur.Round(time.Millisecond), minDur.Round(time.Millisecond)))
+	minDur := time.Duration(float64(moved-d.burst-k*w) / float64(d.limit) * 1e9)
+	if minDur < 0 {
+		minDur = 0
+	}
+	noteMeasurement(ctx, c.timed(), fmt.Sprintf("%s %s read-limit=%d write-limit=%d conns=%d call≤%d%s: %d bytes in %v (bound: ≥ %v; closest to the bound: %d bytes below)",
+		c.Mode, d.name, c.ReadLimit, c.WriteLimit, c.Conns, w, timedNote(c), moved, dur.Round(time.Millisecond), minDur.Round(time.Millisecond), margin))
 	// the same clause decided by the model on the whole transfer
 	ans := ctx.Model.MustAsk("C20", "holds", strconv.FormatInt(d.limit, 10), strconv.FormatInt(d.burst, 10), strconv.FormatInt(k, 10),
-		strconv.FormatInt(w, 10), strconv.FormatInt(d.total-eps, 10), "0", strconv.FormatInt(int64(dur)+jitterNs(int64(dur)), 10))
+		strconv.FormatInt(w, 10), strconv.FormatInt(max64(moved-eps, 0), 10), "0", strconv.FormatInt(int64(dur)+jitterNs(int64(dur)), 10))
 	if ans != "true" {
 		ctx.SpecFail("bytes moved in [t0,t1] ≤ burst + R·(t1−t0) + k·w ("+d.name+")", class, c,
-			fmt.Sprintf("%d bytes in %v (R=%d B/s, B=%d, k=%d, w=%d)", d.total, dur, d.limit, d.burst, k, w), ans)
+			fmt.Sprintf("%d bytes in %v (R=%d B/s, B=%d, k=%d, w=%d)", moved, dur, d.limit, d.burst, k, w), ans)
 		return
 	}
 	// single connection on the harness-driven listener: every call returned no earlier than the
@@ -697,17 +785,62 @@ func evalDir(ctx *core.Ctx, run *xferRun, d *dirState) {
 }
 
 var (
-	measMu sync.Mutex
-	meas   []string
+	measMu    sync.Mutex
+	meas      []string
+	measTimed []string
 )
 
 // noteMeasurement keeps a few measured transfers for the evidence file.
-func noteMeasurement(ctx *core.Ctx, s string) {
+func noteMeasurement(ctx *core.Ctx, timed bool, s string) {
 	measMu.Lock()
 	defer measMu.Unlock()
+	if timed {
+		if len(measTimed) < 12 {
+			measTimed = append(measTimed, s)
+			ctx.Extra("throttled_transfers_with_deadlines_measured", append([]string(nil), measTimed...))
+		}
+		return
+	}
 	if len(meas) < 12 {
 		meas = append(meas, s)
 		ctx.Extra("throttled_transfers_measured", append([]string(nil), meas...))
+	}
+}
+
+func max64(a, b int64) int64 {
+	if a > b {
+		return a
+	}
+	return b
+}
+
+// timedNote describes the deadlines of a timed case (empty otherwise).
+func timedNote(c xferCase) string {
+	switch {
+	case c.DeadlineMs > 0:
+		api := "SetWriteDeadline/SetReadDeadline"
+		if c.DeadlineAPI == "both" {
+			api = "SetDeadline"
+		}
+		return fmt.Sprintf(" [%s(now+%dms) before every call, cut after %d ms]", api, c.DeadlineMs, c.Millis)
+	case c.WriteTimeoutMs > 0 || c.ReadTimeoutMs > 0:
+		return fmt.Sprintf(" [proxy WriteTimeout=%dms ReadTimeout=%dms]", c.WriteTimeoutMs, c.ReadTimeoutMs)
+	}
+	return ""
+}
+
+// kwOf: connections making calls per direction, and the bound on one call.
+func kwOf(c xferCase) (k, w int) {
+	switch c.Mode {
+	case "listener":
+		return c.Conns, c.Chunk
+	case "proxy-connect":
+		return c.Conns, proxyCallBound
+	default: // proxy-http: downloads and uploads use separate connections, and both kinds call in both directions (heads)
+		if c.timed() && (c.NoUp || c.NoDown) {
+			return c.Conns, proxyCallBound
+		}
+		return 2 * c.Conns, proxyCallBound
 	}
 }
 
@@ -720,10 +853,28 @@ func hashEq(d *dirState) []bool {
 }
 
 func checkXfer(ctx *core.Ctx, c xferCase) {
-	if c.Conns < 1 || c.Conns > 16 || c.Chunk < 1 || c.Millis < 0 || c.ReadLimit < 0 || c.WriteLimit < 0 {
+	if c.Conns < 1 || c.Conns > 64 || c.Chunk < 1 || c.Millis < 0 || c.ReadLimit < 0 || c.WriteLimit < 0 {
 		core.Fatalf("C20: malformed xfer case %+v", c)
 	}
+	if c.timed() {
+		// a timed case throttles every direction it runs; deadlines come from one source; a tunnel
+		// only carries the read deadline
+		bad := c.Millis < 100 || (!c.NoDown && c.ReadLimit <= 0) || (!c.NoUp && c.WriteLimit <= 0) || (c.NoUp && c.NoDown) ||
+			c.DownBytes != 0 || c.UpBytes != 0 || c.DeadlineMs < 0 || c.WriteTimeoutMs < 0 || c.ReadTimeoutMs < 0
+		switch c.Mode {
+		case "listener":
+			bad = bad || c.DeadlineMs <= 0 || c.WriteTimeoutMs != 0 || c.ReadTimeoutMs != 0 || (c.DeadlineAPI != "rw" && c.DeadlineAPI != "both")
+		case "proxy-http":
+			bad = bad || c.DeadlineMs != 0 || (!c.NoDown && c.WriteTimeoutMs <= 0) || (!c.NoUp && c.ReadTimeoutMs <= 0)
+		case "proxy-connect":
+			bad = bad || c.DeadlineMs != 0 || !c.NoDown || c.ReadTimeoutMs <= 0
+		}
+		if bad {
+			core.Fatalf("C20: malformed timed xfer case %+v", c)
+		}
+	}
 	run := &xferRun{c: c}
+	run.k, run.w = kwOf(c)
 	if !c.NoDown {
 		run.down = planDir(ctx, "down", c.ReadLimit, c.WriteLimit, c, c.DownBytes, c.Conns)
 	}
@@ -732,13 +883,8 @@ func checkXfer(ctx *core.Ctx, c xferCase) {
 	}
 	switch c.Mode {
 	case "listener":
-		run.k, run.w = c.Conns, c.Chunk
 		runListenerMode(run)
-	case "proxy-connect":
-		run.k, run.w = c.Conns, proxyCallBound
-		runProxyMode(run)
-	case "proxy-http":
-		run.k, run.w = 2*c.Conns, proxyCallBound
+	case "proxy-connect", "proxy-http":
 		runProxyMode(run)
 	default:
 		core.Fatalf("C20: unknown xfer mode %q", c.Mode)
@@ -749,6 +895,12 @@ func checkXfer(ctx *core.Ctx, c xferCase) {
 	ctx.Count(fmt.Sprintf("xfer/conns=%d", c.Conns))
 	if c.Mode == "listener" {
 		ctx.Count(fmt.Sprintf("xfer/chunk=%dKiB", c.Chunk/kib))
+	}
+	switch {
+	case c.DeadlineMs > 0:
+		ctx.Count(fmt.Sprintf("xfer/deadlines/listener/%s/%dms-before-every-call", c.DeadlineAPI, c.DeadlineMs))
+	case c.timed():
+		ctx.Count(fmt.Sprintf("xfer/deadlines/%s/write-timeout=%v,read-timeout=%v", c.Mode, c.WriteTimeoutMs > 0, c.ReadTimeoutMs > 0))
 	}
 	if run.fatal != "" {
 		// the rig could not be set up or the proxy refused to relay: with limits set this is the
@@ -775,10 +927,75 @@ func checkXfer(ctx *core.Ctx, c xferCase) {
 }
 
 func jsonKey(c xferCase) (string, error) {
-	return fmt.Sprintf("%s|%d|%d|%d|%d|%d|%d|%d|%v|%v", c.Mode, c.ReadLimit, c.WriteLimit, c.Conns, c.Chunk, c.Millis, c.DownBytes, c.UpBytes, c.NoDown, c.NoUp), nil
+	key := fmt.Sprintf("%s|%d|%d|%d|%d|%d|%d|%d|%v|%v", c.Mode, c.ReadLimit, c.WriteLimit, c.Conns, c.Chunk, c.Millis, c.DownBytes, c.UpBytes, c.NoDown, c.NoUp)
+	if c.timed() {
+		key += fmt.Sprintf("|dl=%d/%s|wt=%d|rt=%d", c.DeadlineMs, c.DeadlineAPI, c.WriteTimeoutMs, c.ReadTimeoutMs)
+	}
+	return key, nil
 }
 
 // ---- generation and scheduling ----
+
+// genTimed: the deadline-armed cases. Connections × piece / rate is chosen so that a reservation's
+// queueing delay (N·w/R ≈ 0.4-1 s, up to 2 s in the thorough tier) is well above the time a deadline
+// leaves (200-400 ms per call; the last stretch before the proxy's timeout).
+func genTimed(ctx *core.Ctx, r *core.Rand) []xferCase {
+	var cases []xferCase
+	type nr struct {
+		n int
+		r int64
+	}
+	combos := []nr{{8, 256 * kib}, {16, 512 * kib}, {32, mib}}
+	if !ctx.Quick() {
+		combos = append(combos, nr{16, 256 * kib}, nr{32, 512 * kib}, nr{24, 768 * kib})
+	}
+	dls := []int{200, 300, 400}
+	apis := []string{"rw", "both"}
+	rounds := ctx.N(1, 3)
+	for round := 0; round < rounds; round++ {
+		core.Shuffle(r, combos)
+		a, b, d := combos[0], combos[1], combos[2]
+		lis := func(c xferCase) xferCase {
+			c.Kind, c.Mode, c.Chunk, c.Millis, c.DeadlineMs, c.Seed = "xfer", "listener", 32*kib, r.Range(1800, 2200), core.Pick(r, dls), r.U64()
+			return c
+		}
+		// every Write preceded by SetWriteDeadline, every Read by SetReadDeadline, both by SetDeadline
+		cases = append(cases,
+			lis(xferCase{ReadLimit: a.r, Conns: a.n, NoUp: true, DeadlineAPI: "rw"}),
+			lis(xferCase{WriteLimit: b.r, Conns: b.n, NoDown: true, DeadlineAPI: "rw"}),
+			lis(xferCase{ReadLimit: d.r, WriteLimit: d.r * int64(r.Range(1, 2)), Conns: d.n, DeadlineAPI: "both"}))
+		// one connection whose single call owes more than the deadline leaves (256 KiB at 256-512 KiB/s);
+		// its call trace is also held against the model
+		one := lis(xferCase{Conns: 1, DeadlineAPI: core.Pick(r, apis)})
+		one.Chunk = 256 * kib
+		if r.Chance(50) {
+			one.ReadLimit, one.NoUp = core.Pick(r, []int64{256 * kib, 512 * kib}), true
+		} else {
+			one.WriteLimit, one.NoDown = core.Pick(r, []int64{256 * kib, 512 * kib}), true
+		}
+		cases = append(cases, one)
+		// the full proxy: many concurrent downloads under WriteTimeout (4 KiB writes: N·4 KiB/R ≈ 0.4-0.5 s),
+		// many concurrent uploads under ReadTimeout (32 KiB reads: N·32 KiB/R = 0.5 s)
+		t := r.Range(1500, 2000)
+		cases = append(cases, xferCase{Kind: "xfer", Mode: "proxy-http", ReadLimit: 256 * kib, Conns: core.Pick(r, []int{24, 28, 32}), Chunk: 32 * kib,
+			Millis: t, WriteTimeoutMs: t, NoUp: true, Seed: r.U64()})
+		u := core.Pick(r, []nr{{8, 512 * kib}, {16, mib}})
+		t = r.Range(1500, 2000)
+		cases = append(cases, xferCase{Kind: "xfer", Mode: "proxy-http", WriteLimit: u.r, Conns: u.n, Chunk: 32 * kib,
+			Millis: t, ReadTimeoutMs: t, NoDown: true, Seed: r.U64()})
+		if !ctx.Quick() {
+			// a tunnel keeps the request's read deadline; and both timeouts with both directions at once
+			u = core.Pick(r, []nr{{8, 512 * kib}, {16, mib}})
+			t = r.Range(1500, 2500)
+			cases = append(cases, xferCase{Kind: "xfer", Mode: "proxy-connect", WriteLimit: u.r, Conns: u.n, Chunk: 32 * kib,
+				Millis: t, ReadTimeoutMs: t, NoDown: true, Seed: r.U64()})
+			t = r.Range(1500, 2500)
+			cases = append(cases, xferCase{Kind: "xfer", Mode: "proxy-http", ReadLimit: 256 * kib, WriteLimit: mib, Conns: 16, Chunk: 32 * kib,
+				Millis: t, WriteTimeoutMs: t, ReadTimeoutMs: t, Seed: r.U64()})
+		}
+	}
+	return cases
+}
 
 func genXfers(ctx *core.Ctx) []xferCase {
 	var cases []xferCase
@@ -821,7 +1038,8 @@ func genXfers(ctx *core.Ctx) []xferCase {
 		cases = append(cases, xferCase{Kind: "xfer", Mode: mode, ReadLimit: p.r, WriteLimit: p.w, Conns: r.Range(1, 3),
 			Chunk: 32 * kib, Millis: r.Range(loMs, hiMs), Seed: r.U64()})
 	}
-	return cases
+	// the deadline-armed cases are the longest: start them first
+	return append(genTimed(ctx, r), cases...)
 }
 
 func runXfers(ctx *core.Ctx, cases []xferCase) {
